@@ -18,6 +18,9 @@ type stmt struct {
 	PK   []string
 	FKs  []fk
 	Raw  string
+	// the statement as written (up to its ";"), and its modelled text lexed into pieces (text.go)
+	RawFull string
+	Pieces  []piece
 }
 
 var (
@@ -88,6 +91,7 @@ func parseSQL(sql string) ([]stmt, string) {
 				}
 				return nil, "line in CREATE TABLE " + st.T + ": " + ln
 			}
+			st.RawFull = raw
 			out = append(out, st)
 			continue
 		}
@@ -153,6 +157,7 @@ func parseSQL(sql string) ([]stmt, string) {
 		default:
 			return nil, "statement: " + s
 		}
+		out[len(out)-1].RawFull = raw
 	}
 	// CREATE SEQUENCE T_c_seq is always followed by the ALTER ... SET DEFAULT that names table and column; resolve
 	// the pair from there, and the upper-cased column of DROP CONSTRAINT from the known spellings
@@ -169,6 +174,11 @@ func parseSQL(sql string) ([]stmt, string) {
 			if !found {
 				return nil, "CREATE SEQUENCE " + out[i].Ty + " is not used by a later SET DEFAULT"
 			}
+		}
+	}
+	for i := range out {
+		if why := stmtPieces(&out[i]); why != "" {
+			return nil, why
 		}
 	}
 	return out, ""
